@@ -10,6 +10,7 @@ from vf.core import SubCheck, Enumeration, Violation, Reject, lib, require, requ
 from vf.props import c03_util as U
 
 import rsatoolbox
+from rsatoolbox.rdm.transform import rank_transform
 from rsatoolbox.rdm import RDMs
 import importlib
 C = importlib.import_module('rsatoolbox.rdm.compare')
@@ -159,6 +160,29 @@ def laws(case, method, main, tol, self_tol=None, lo=-1.0, hi=1.0, is_metric=Fals
                       'law:input-form:' + method, rtol=1e-12, atol=1e-13)
     require_close(main, as_obj, '%s generated forms (%s,%s) vs RDMs input' % (
         method, case['form1'], case['form2']), 'law:input-form:' + method, rtol=1e-12, atol=1e-13)
+    # ... also for an RDMs object that earlier library calls produced: a larger RDM, rank-transformed
+    # (which tags its measure), restricted to the first n conditions -- the values it now holds are
+    # what is compared, whatever its history
+    if n >= 3 and method != 'bures' and method != 'bures_metric':
+        ext = []
+        for v in v1:
+            sq = np.zeros((n + 1, n + 1))
+            sq[:n, :n] = ref.to_square(np.array(v, dtype=float), n)
+            for j in range(n):
+                sq[j, n] = sq[n, j] = 0.5 * float(v[j % len(v)]) + 0.25 * (j + 1)
+            ext.append(ref.to_vector(sq))
+        obj = lib(lambda: rank_transform(RDMs(np.array(ext))).subset_pattern('index', list(range(n))))
+        held = np.array(obj.get_vectors(), dtype=float)
+        b = np.array(v2, dtype=float)
+        skw = {} if method not in WHITE or sigma is None else {'sigma_k': np.array(sigma, dtype=float)}
+        from_obj = np.asarray(lib(C.compare, obj, b.copy(), method=method, on_error='violation',
+                                  sig='raises:' + method, **skw), dtype=float)
+        from_arr = np.asarray(lib(C.compare, held.copy(), b.copy(), method=method, on_error='violation',
+                                  sig='raises:' + method, **skw), dtype=float)
+        require_close(from_obj, from_arr, '%s on an RDMs object produced by rank_transform + '
+                      'subset_pattern (measure %r) vs the plain array of the values it holds' % (
+                          method, obj.dissimilarity_measure), 'law:input-form:library-object:' + method,
+                      rtol=1e-12, atol=1e-13)
 
 
 def base_labels(case):
